@@ -14,7 +14,8 @@ EXPLANATION = (
     "conditionally executed / loop child list is traversed inside the collector's conditional / loop context manager "
     "(read from the With statements enclosing the traversal in each handler).  R03.7: those context managers restore "
     "the state they toggle to its previous value (or count), because handlers nest.  R03.4: the return/yield counter has "
-    "handlers for every generator-making constructor and for Return.  R03.6: the suite walker used for placing "
+    "handlers for every generator-making constructor and for Return.  R03.8: regions containing async statements are "
+    "refused or emitted into an `async def`.  R03.6: the suite walker used for placing "
     "extracted definitions wraps every statement-list field of every compound statement in a Suite.  The oracle is "
     "the running interpreter's grammar plus the binding/conditional/loop/generator tables.  The set algebra on the "
     "summary, similar-code replacement and placement arithmetic are not decided."
@@ -174,6 +175,28 @@ def check(ctx, res) -> None:
 
     # ---- R03.4
     yield_counter_rule(ctx, res, "R03.4")
+
+    # ---- R03.8 a region containing await / async for / async with can only live in an `async def`: either such regions
+    # are refused on every interpreter version, or the emitter of the new function has an `async def` header path
+    parts = idx.need_class("rope.refactor.extract._ExtractMethodParts")
+    emits_async = any(isinstance(x, ast.Constant) and isinstance(x.value, str) and "async def" in x.value
+                      for m in parts.methods.values() for x in ast.walk(m.node))
+    chk = idx.need_func("rope.refactor.extract._ExceptionalConditionChecker.multi_line_conditions")
+    from ..cfg import CFG as _CFG
+
+    cfg = _CFG(chk.node)
+    refuses_always = False
+    for n in cfg.nodes:
+        if n.kind == "stmt" and isinstance(n.ast, ast.Raise):
+            gs = cfg.guards(n.id)
+            if any(isinstance(t, ast.Call) and "AsyncStatementFinder" in ast.unparse(t) and pol for t, pol in gs):
+                # refused only under an additional version test?
+                refuses_always = not any(isinstance(t, ast.Call) and call_name(t) == "hasattr" for t, pol in gs)
+    ok = emits_async or refuses_always
+    res.add("R03.8", "extract|async-region", ok, parts.methods["_get_function_definition"].where,
+            "regions with async statements are refused or emitted into an `async def`" if ok else
+            "extract accepts a region containing `async for` / `async with` (the refusal is limited to interpreters without top-level await) but the "
+            "new function's header is always a plain `def`: the rewritten module does not compile (SyntaxError: 'async for' outside async function)")
 
     # ---- R03.6 suite walker
     idx.need_class(SUITES)
